@@ -170,7 +170,7 @@ def build(program, rec, opts=None, name_prefix=""):
 
         def make_gcd(spec):
             def get_context_data(self, *args, **kwargs):
-                rec.visit("gcd:%s" % spec["name"])
+                rec.visit("gcd:%s%s" % (spec["name"], ("@" + str(kwargs["uid"])) if "uid" in kwargs else ""))
                 rec.instances.append((spec["name"], self.id, dict(kwargs)))
                 out = {}
                 for var, s in spec["data"]:
@@ -184,7 +184,7 @@ def build(program, rec, opts=None, name_prefix=""):
                         out[var] = str(kwargs.get(s[1], ""))[1:]
                     elif s[0] == "inject":
                         key, field, dflt = s[1], s[2], s[3]
-                        rec.visit("inject:%s" % spec["name"])
+                        rec.visit("inject:%s%s" % (spec["name"], ("@" + str(kwargs["uid"])) if "uid" in kwargs else ""))
                         try:
                             if dflt is None:
                                 val = self.inject(key)
